@@ -205,7 +205,8 @@ def c03():
     import suite_merges
     return {
         "props_file": "Props/C03.v",
-        "theorems": ["C03_bound", "C03_never_merge", "C03_merge_meets", "C03_not_below_is_ge"],
+        "theorems": ["C03_bound", "C03_never_merge", "C03_merge_meets", "C03_not_below_is_ge",
+                     "C03_step_grown", "C03_last_grown"],
         "suites": [suite_hist.suite_hist_api, suite_merges.suite_merges],
         "search": suite_hist.search_hist("C03"),
         "replay": suite_hist.replay_hist("C03"),
@@ -299,14 +300,18 @@ def c20():
                      "C20_nonvacuous", "C20_two_readers_safe", "C20_two_readers_monotone",
                      "C20_published_never_disappears"],
         "model_files": ["Model/Monitor.v"],
-        "suites": [suite_monitor.suite_monitor],
+        "suites": [suite_monitor.suite_monitor, suite_monitor.suite_monitor_interleave],
         "search": suite_monitor.search_c20,
         "replay": suite_monitor.replay_c20,
         "level": "proof",
         "rule": "sample sequences (repeats, short and long decimal reprs, increasing and not); the real "
                 "monitor_rss_process runs in-process with every file operation intercepted and the real "
                 "get_peak_memory_gib called after EVERY operation; operation sequence and reader results "
-                "compared with Model/Monitor.v; non-trivial = distinct sequence with >= 2 distinct values",
+                "compared with Model/Monitor.v; monitor-interleave: the real writer runs in a thread that "
+                "stops before each of its file operations while the real reader's own sub-steps (exists / "
+                "open / read) are interleaved with it under schedules (a, b, c, d) — all of them in the "
+                "thorough tier — followed by a second reader, compared with exec2 of the model; "
+                "non-trivial = distinct sequence with >= 2 distinct values / distinct schedule",
         "trusted": COMMON_TRUST + ["POSIX rename atomicity (os.replace) and 'an open file keeps its inode "
                                    "content' — assumptions of the model", "float repr/parse round-trips",
                                    "the daemon shares no memory with the clustering process (OS process model); "
